@@ -21,7 +21,7 @@ def B(b):
 
 DIGITS = [b'', b'0', b'00', b'1', b'10', b'12', b'100', b'123', b'7000']
 OPS = ([('put', d) for d in DIGITS] + [('fput', d) for d in (b'', b'0', b'5', b'80', b'123')] + [('push', d) for d in (b'', b'0', b'5', b'12')] +
-       [('put_digit_at', (dg, pos)) for dg in (48, 51) for pos in (0, 1, 2, 5)] + [('shift', p) for p in (0, 1, 2, 3, 6)] + [('freeze', None), ('reset', None)])
+       [('put_digit_at', (dg, pos)) for dg in (48, 51) for pos in (0, 1, 2, 5)] + [('shift', p) for p in (0, 1, 2, 3, 6)] + [('freeze', None), ('reset', None), ('set-flags', 5), ('set-marker', 'th')])
 OPS_SMALL = [('put', b'0'), ('put', b'1'), ('put', b'20'), ('put', b'100'), ('fput', b'80'), ('push', b'5'), ('put_digit_at', (51, 1)), ('put_digit_at', (52, 3)),
              ('shift', 2), ('shift', 3), ('freeze', None), ('reset', None)]
 OPS_QUICK = [('put', b'0'), ('put', b'1'), ('put', b'20'), ('fput', b'80'), ('push', b'5'), ('put_digit_at', (51, 1)), ('put_digit_at', (52, 3)), ('shift', 2),
@@ -37,6 +37,10 @@ def show_op(op):
         return '%s(b"%s")' % (name, arg.decode())
     if isinstance(arg, tuple):
         return "%s(b'%s', %d)" % (name, chr(arg[0]), arg[1])
+    if name == 'set-flags':
+        return 'flags = %d' % arg
+    if name == 'set-marker':
+        return 'marker = Ordinal("%s")' % arg
     return '%s(%d)' % (name, arg)
 
 
@@ -46,6 +50,12 @@ def show_seq(seq):
 
 def call_op(vm, R, op):
     name, arg = op
+    if name == 'set-flags':                 # `flags` and `marker` are public fields: users (the interpreters) write them directly
+        vm.deref(R).fields['flags'] = arg
+        return ()
+    if name == 'set-marker':
+        vm.deref(R).fields['marker'] = Enum('lang::MorphologicalMarker', 'Ordinal', [arg])
+        return ()
     if arg is None:
         args = []
     elif isinstance(arg, bytes):
